@@ -157,6 +157,12 @@ class BaseShell(Shell, ABC):
                 await self.close()
                 raise WorkflowExecutionException(f"Shell pipe broken: {e}") from e
             except asyncio.TimeoutError as e:
+                await self.close()
                 raise WorkflowExecutionException(
                     f"Command timeout after {timeout}s"
                 ) from e
+            except Exception:
+                # The command has already been sent to the shell: its output and end
+                # marker would be read as the output of the next command
+                await self.close()
+                raise
